@@ -340,6 +340,19 @@ def check_validators(model, rep, rule):
             if lo is not None:
                 rep.check(has(("<", "<="), lo, -1), rule, f.qualname, where(f, rn.ast), f"raises unless {subj} >= {lo}", f"no dominating `if {subj} < {lo}: raise` before `return {v}`: values below the assumed bound are accepted", stmt="validator-lower")
     rep.floor(rule + "-validators", n_v, 6)
+    # the TTL reader: every value it returns (plain decimal AND the BIND unit syntax) passed the `> MAX_TTL` refusal
+    ft = model.func("dns.ttl.from_text")
+    cfg = CFG(ft.node, implicit_exc=False)
+    rets = [n for n in cfg.nodes if isinstance(n.ast, ast.Return) and isinstance(n.ast.value, ast.Name)]
+    if not rets:
+        rep.blind(rule, ft.qualname, where(ft, ft.node), "no `return <name>` found", stmt="ttl-bound")
+    for rn in rets:
+        v = rn.ast.value.id
+        guards = [t for t in cfg.nodes if t.kind == "test" and isinstance(t.ast, ast.If) and t.ast.body and isinstance(t.ast.body[-1], ast.Raise) and cfg.edge_dominated(rn.id, {(t.id, "f")})
+                  and any(a == A(v, ">", "MAX_TTL") for a in atoms(normalise_compare(t.ast.test)))]
+        rep.check(bool(guards), rule, ft.qualname, where(ft, rn.ast), f"every path to `return {v}` refuses {v} > MAX_TTL",
+                  f"`return {v}` is reachable without passing `if {v} > MAX_TTL: raise BadTTL` (e.g. only the plain-decimal arm is bounded): '7102w' is returned as a TTL above 2**32-1, "
+                  "which later fails in struct.pack / Rdataset.update_ttl with an error outside the syntax-error family", stmt="ttl-bound")
 
 
 def run(model, rep, tier):
@@ -631,6 +644,11 @@ def run(model, rep, tier):
 
 
 WITNESSES = [
+    {"id": "c05-ttl-units-unbounded", "rule": "R-05.5", "file": "dns/ttl.py", "expect": "fires",
+     "edits": [{"file": "dns/ttl.py", "old": "    if text.isdecimal():\n        total = int(text)\n", "new": "    if text.isdecimal():\n        total = int(text)\n        if total > MAX_TTL:\n            raise BadTTL\n"},
+               {"file": "dns/ttl.py", "old": "    if total < 0 or total > MAX_TTL:", "new": "    if total < 0:"}]},
+    {"id": "c05-twin-ttl-bound-reordered", "rule": "R-05.5", "file": "dns/ttl.py", "expect": "silent",
+     "old": "    if total < 0 or total > MAX_TTL:", "new": "    if total > MAX_TTL or total < 0:"},
     {"id": "c05-embedded-name-at-origin-prints-empty", "rule": "R-05.7", "file": "dns/name.py", "expect": "fires",
      "old": "        if len(name.labels) == 0:\n            return \"@\"", "new": "        if len(self.labels) == 0:\n            return \"@\""},
     {"id": "c05-generic-always-relativized", "rule": "R-05.4", "file": "dns/rdata.py", "expect": "fires",
